@@ -14,6 +14,17 @@ Definition ip_item_wfb (it : ip_item) : bool :=
   | IpCidr6 a n => ((0 <=? n) && (n <=? 128) && (0 <=? a) && (a <? 2 ^ 128) && (a mod 2 ^ (128 - n) =? 0))%Z
   end.
 
+(* index kind matching the container: [n] on arrays, ["k"] on maps, [*] on both *)
+Fixpoint ty_index_ok (t : ty) (idx : list index) {struct idx} : option ty :=
+  match idx with
+  | [] => Some t
+  | i :: r =>
+      match t, i with
+      | TArray s, IArr _ | TArray s, IEach | TMap s, IKey _ | TMap s, IEach => ty_index_ok s r
+      | _, _ => None
+      end
+  end.
+
 Section WithScheme.
 Variable sch : scheme.
 
@@ -69,3 +80,151 @@ with scalars (l : lexprs) : bool :=
   end.
 
 End WithScheme.
+
+(* ---- the documented typing rules (C04) ----
+   [wt_*] return the static type of a well-typed node and [None] for an
+   ill-typed one.  Logical expressions have type Bool or Array(Bool). *)
+
+Definition kind_ok (k : arg_kind) (a : arg) : bool :=
+  match k, a with
+  | KBoth, _ => true
+  | KLiteral, ALit _ => true
+  | KField, (AIndex _ | ALogical _) => true
+  | _, _ => false
+  end.
+
+Definition lres_ty (t : ty) : bool :=
+  match t with TBool | TArray TBool => true | _ => false end.
+
+Fixpoint wt_lexpr (sch : scheme) (e : lexpr) {struct e} : option ty :=
+  match e with
+  | ECombining _ items =>
+      match items with
+      | LNil => None
+      | LCons e0 rest =>
+          match wt_lexpr sch e0 with
+          | Some t => if wt_lexprs sch t rest then Some t else None
+          | None => None
+          end
+      end
+  | EComparison lhs op =>
+      match wt_iexpr sch lhs with
+      | None => None
+      | Some t =>
+          let n := map_each_count (iexpr_idx lhs) in
+          match t with
+          | TBool => match op with
+                     | CIsTrue => Some (if Nat.eqb n 0 then TBool else TArray TBool)
+                     | _ => None
+                     end
+          | TArray TBool | TMap TBool =>
+              (* a bare container of booleans; with [*] it would be an array of arrays *)
+              match op with
+              | CIsTrue => if Nat.eqb n 0 then Some (TArray TBool) else None
+              | _ => None
+              end
+          | _ =>
+              if is_prim t && op_ok sch t op then Some (if Nat.eqb n 0 then TBool else TArray TBool) else None
+          end
+      end
+  | EParen e' => wt_lexpr sch e'
+  | ENot e' => wt_lexpr sch e'
+  | EQuantIndex _ a =>
+      (* the argument is a boolean-array value, without [*] *)
+      match wt_iexpr sch a with
+      | Some (TArray TBool) => if Nat.eqb (map_each_count (iexpr_idx a)) 0 then Some TBool else None
+      | _ => None
+      end
+  | EQuantLogical _ a =>
+      match wt_lexpr sch a with
+      | Some (TArray TBool) => Some TBool
+      | _ => None
+      end
+  end
+(* both operands plain booleans, or both boolean arrays *)
+with wt_lexprs (sch : scheme) (t : ty) (l : lexprs) {struct l} : bool :=
+  match l with
+  | LNil => true
+  | LCons e r =>
+      match wt_lexpr sch e with
+      | Some t' => ty_eqb t t' && wt_lexprs sch t r
+      | None => false
+      end
+  end
+(* type of `ident[idx...]`: every index kind matches the container *)
+with wt_iexpr (sch : scheme) (e : iexpr) {struct e} : option ty :=
+  match e with
+  | IField f idx =>
+      match field_ty sch f with
+      | Some t => ty_index_ok t idx
+      | None => None
+      end
+  | ICall fn a idx =>
+      match fn_of sch fn with
+      | None => None
+      | Some d =>
+          let al := args_to_list a in
+          let mapped := match al with a0 :: _ => Nat.ltb 0 (arg_map_each_count a0) | [] => false end in
+          (* [*] only in the first argument *)
+          if negb (forallb (fun x => Nat.eqb (arg_map_each_count x) 0) (tl al)) then None
+          else
+            match (if fn_variadic_same d
+                   then (* at least two arguments, all of the type of the first: an array type or Bytes *)
+                     match wt_args_same sch a with
+                     | Some (Some t, n) =>
+                         if Nat.leb 2 n && match t with TArray _ | TBytes => true | _ => false end
+                         then Some t else None
+                     | _ => None
+                     end
+                   else
+                     (* arity, then kind and type of every argument *)
+                     if Nat.leb (length (fn_params d)) (length al)
+                        && Nat.leb (length al) (length (fn_params d) + length (fn_opt_params d))
+                        && wt_args_sig sch (fn_params d ++ map (fun p => (fst p, type_of (snd p))) (fn_opt_params d)) a
+                     then Some (fn_ret d) else None)
+            with
+            | None => None
+            | Some ret => ty_index_ok (if mapped then TArray ret else ret) idx
+            end
+      end
+  end
+(* arguments against a signature prefix: kind and type of each *)
+with wt_args_sig (sch : scheme) (sig : list (arg_kind * ty)) (a : args) {struct a} : bool :=
+  match a with
+  | ANil => true
+  | ACons x r =>
+      match sig with
+      | [] => false
+      | (k, t) :: sig' =>
+          kind_ok k x && match wt_arg sch x with Some t' => ty_eqb t t' | None => false end && wt_args_sig sch sig' r
+      end
+  end
+(* all arguments well-typed with one common type: (that type, their number) *)
+with wt_args_same (sch : scheme) (a : args) {struct a} : option (option ty * nat) :=
+  match a with
+  | ANil => Some (None, O)
+  | ACons x r =>
+      match wt_arg sch x, wt_args_same sch r with
+      | Some t, Some (None, n) => Some (Some t, S n)
+      | Some t, Some (Some t', n) => if ty_eqb t t' then Some (Some t, S n) else None
+      | _, _ => None
+      end
+  end
+with wt_arg (sch : scheme) (a : arg) {struct a} : option ty :=
+  match a with
+  | AIndex e => wt_iexpr sch e
+  | ALit r => Some (rhs_ty r)
+  | ALogical e => wt_lexpr sch e
+  end.
+
+(* a filter: top level a plain boolean *)
+Definition wt_filter (sch : scheme) (e : lexpr) : bool :=
+  match wt_lexpr sch e with Some TBool => true | _ => false end.
+
+(* a value expression: free of [*] *)
+Definition wt_value (sch : scheme) (e : iexpr) : option ty :=
+  match wt_iexpr sch e with
+  | Some t => if Nat.eqb (map_each_count (iexpr_idx e)) 0 then Some t else None
+  | None => None
+  end.
+
